@@ -13,6 +13,7 @@ import B2Z.Model.ExplodeProto
 import B2Z.Model.IcfDamage
 import B2Z.Model.EncodeProto
 import B2Z.Model.Checks
+import B2Z.Model.Cli
 /-! JSON line-protocol driver: one request object per line in, one JSON value per line out.
     Only `Model.*` (core Lean) is imported, so this also builds as a native executable. -/
 open Lean
@@ -475,6 +476,19 @@ def handle (j : Json) : Except String Json := do
     let strs : String → Except String (List String) := fun k => do
       (← reqArr j k).toList.mapM (·.getStr?)
     pure (Json.bool (Checks.namesOk (← strs "clobber_info") (← strs "clobber_format") (← strs "fixed") (← strs "info") (← strs "format")))
+  | "cli.documented" =>
+    pure (Json.arr (Cli.documented.map fun c => Json.mkObj [
+      ("command", Json.str c.command), ("func", Json.str c.func), ("args", Json.arr (c.args.map Json.str).toArray),
+      ("kwargs", Json.arr (c.kwargs.map fun (k, v, x) => Json.arr #[Json.str k, Json.str v,
+          Json.str (match x with | .id => "id" | .compressor => "compressor")]).toArray)]).toArray)
+  | "cli.partition" =>
+    let k ← reqInt j "k"; let n ← reqNat j "n"
+    let ob ← (← j.getObjVal? "one_based").getBool?
+    let idx := Cli.partitionIndex k ob
+    pure (Json.mkObj [("index", Json.num (JsonNumber.fromInt idx)), ("accepted", Json.bool (Cli.accepted n idx))])
+  | "cli.guard" =>
+    let e ← (← j.getObjVal? "exists").getBool?; let f ← (← j.getObjVal? "force").getBool?; let c ← (← j.getObjVal? "confirm").getBool?
+    pure (Json.str (match Cli.overwriteGuard e f c with | .proceed => "proceed" | .abort => "abort" | .replace => "replace"))
   | "xp.hist" =>
     let c ← xpCfg j
     let hist ← (← reqArr j "history").toList.mapM xpCmd
